@@ -1313,6 +1313,7 @@ func c13Filter(p *core.Program, r *core.Report, t *types.Named) {
 		return nil
 	}
 	ok := false
+	var selLoop ast.Node
 	why := "no loop over the index list that appends this.get(index[i])"
 	ast.Inspect(fi.Decl.Body, func(n ast.Node) bool {
 		var body *ast.BlockStmt
@@ -1439,11 +1440,54 @@ func c13Filter(p *core.Program, r *core.Report, t *types.Named) {
 		})
 		if adds == 1 && good == 1 {
 			ok = true
+			selLoop = n
 		} else if adds > 0 {
 			why = "the loop over the index list does not append exactly this.get(<index at that position>) once per position"
 		}
 		return true
 	})
+	// nothing reaches the result except through that loop: no second filling of the result (a bulk copy
+	// of a window, an AddAll) and no return before the loop other than for an empty index list
+	if ok && selLoop != nil {
+		var res types.Object
+		ast.Inspect(fi.Decl.Body, func(n ast.Node) bool {
+			if rs, isR := n.(*ast.ReturnStmt); isR && len(rs.Results) == 1 && res == nil {
+				if id, isId := ast.Unparen(rs.Results[0]).(*ast.Ident); isId {
+					res = info.ObjectOf(id)
+				}
+			}
+			return true
+		})
+		ast.Inspect(fi.Decl.Body, func(n ast.Node) bool {
+			if n == selLoop {
+				return false
+			}
+			switch v := n.(type) {
+			case *ast.CallExpr:
+				if sel, isSel := v.Fun.(*ast.SelectorExpr); isSel && res != nil {
+					if id, isId := ast.Unparen(sel.X).(*ast.Ident); isId && info.ObjectOf(id) == res {
+						ln := strings.ToLower(sel.Sel.Name)
+						if strings.HasPrefix(ln, "add") || strings.HasPrefix(ln, "set") || strings.HasPrefix(ln, "put") || strings.HasPrefix(ln, "insert") {
+							ok = false
+							why = "the result is also filled outside the loop over the index list (" + stripSpaces(types.ExprString(v.Fun)) + " at " + p.Pos(v.Pos()) + "): on that path the elements are not the selected ones in index-list order"
+						}
+					}
+				}
+				if id, isId := v.Fun.(*ast.Ident); isId && id.Name == "copy" && len(v.Args) == 2 && res != nil {
+					if root := rootOf(v.Args[0]); root != nil && info.ObjectOf(root) == res {
+						ok = false
+						why = "the result's storage is filled by copy() outside the loop over the index list"
+					}
+				}
+			case *ast.ReturnStmt:
+				if v.Pos() < selLoop.Pos() {
+					ok = false
+					why = "a return at " + p.Pos(v.Pos()) + " leaves before the loop over the index list has run"
+				}
+			}
+			return true
+		})
+	}
 	r.Check(ok, "C13.filter", "util/list."+t.Obj().Name()+".Filtering", p.Pos(fi.Decl.Pos()), "out.add(get(index[i])) for i ascending", "filtering does not append the selected elements in index-list order: "+why)
 }
 
